@@ -154,6 +154,10 @@ def _direct(R, rng, defn, b, cse, ctx):
                 R.stats.inc("dt_substitutions_skipped_at_kink")
         last_dt = dt
         pt[defn["dt"]] = dt
+        if gen.outside_domain(defn, pt, pt, dt):
+            # last resort: no admissible point was found for this definition
+            R.stats.inc("points_skipped_outside_domain")
+            continue
         R.stats.inc("dt_zero_tiny_or_negative_cases" if pi in (1, 2, 3) else "dt_ordinary_cases")
         try:
             if pi % 3 == 2:
